@@ -138,8 +138,37 @@ def model_check(d, name, consts, invariants, timeout, workers):
         raise ToolError("TLC did not complete for %s (see %s.out)" % (mod, os.path.join(d, mod)))
     if violated:
         open(os.path.join(d, mod + ".out"), "w").write(out)
-    return dict(name=name, states=states, transitions=trans, violated=violated, wall_s=round(time.time() - t0, 1),
-                constants={k: (sorted(v) if isinstance(v, (set, frozenset)) else v) for k, v in consts.items()})
+    cex = cex_to_schedule(out) if violated else None
+    return dict(name=name, cex=cex, states=states, transitions=trans, violated=violated, wall_s=round(time.time() - t0, 1),
+                constants={k: (sorted(v, key=str) if isinstance(v, (set, frozenset)) else v) for k, v in consts.items()})
+
+
+CEX_RE = re.compile(r'^State \d+: <Apply\((\[.*?\])\) line', re.M)
+
+
+def tla_record_to_dict(txt):
+    """[a |-> "a1", cap |-> 2, c |-> "spawn"] -> dict (flat records of strings / ints / booleans)"""
+    out = {}
+    body = txt.strip()[1:-1]
+    for part in re.findall(r'(\w+) \|-> ("(?:[^"\\]|\\.)*"|-?\d+|TRUE|FALSE)', body):
+        k, v = part
+        if v.startswith('"'):
+            out[k] = v[1:-1]
+        elif v in ("TRUE", "FALSE"):
+            out[k] = v == "TRUE"
+        else:
+            out[k] = int(v)
+    return out
+
+
+def cex_to_schedule(out):
+    """Command sequence of the (first) counterexample in a TLC error trace of MC.tla."""
+    first = out.split("Error: Invariant", 2)
+    if len(first) < 2:
+        return None
+    block = first[1]
+    cmds = [tla_record_to_dict(m.group(1)) for m in CEX_RE.finditer(block)]
+    return [{"cmd": c} for c in cmds] if cmds else None
 
 
 def unescape(s):
@@ -375,6 +404,7 @@ def do_check(pid, plan, tier, seed, d, evid_path, t0):
     feats = plan.get("feats", [])
     binp = build_harness(feats)
     violations = []      # (stage, run, prop, why, replay_path)
+    cex_scheds = []      # counterexamples of "finding" model configs, replayed into the code below
     mc_results = []
     total_states = total_trans = 0
     # ---- model checking -------------------------------------------------------------
@@ -386,20 +416,42 @@ def do_check(pid, plan, tier, seed, d, evid_path, t0):
         mc_results.append(r)
         total_states += r["states"]
         total_trans += r["transitions"]
+        if mc.get("expect_violation") and not r["violated"]:
+            raise ToolError("finding config %s was expected to violate an invariant in the model but did not" % mc["name"])
         if r["violated"]:
             if mc.get("expect_violation"):
-                log("model config %s violates %s as expected" % (mc["name"], r["violated"]))
+                log("model config %s violates %s as expected (%d-step counterexample)" %
+                    (mc["name"], r["violated"], len(r["cex"] or [])))
+                if r["cex"]:
+                    cex_scheds.append((mc["name"], r["cex"]))
             else:
                 raise ToolError("MODEL FAILURE: invariant %s violated in the model itself (config %s); "
                                 "the model or the monitor is wrong -- see %s" % (r["violated"], mc["name"], d))
         log("model-checked %s: %d states, %d transitions, %.1fs" % (mc["name"], r["states"], r["transitions"], r["wall_s"]))
-    # ---- generation + replay + trace validation ---------------------------------------
     traces = 0
     events = 0
     drift = 0
     first_drifts = []
     nontrivial = set()
     samples = []
+    # ---- counterexamples of finding configs: does the real code do what the (defective) model does?
+    for (name, steps) in cex_scheds:
+        sp = os.path.join(d, "sched_cex_%s.ndjson" % name)
+        open(sp, "w").write(json.dumps(steps) + "\n")
+        tr, rep = replay(binp, sp, d, "cex_" + name)
+        files, nruns, nev = split_trace(tr, d, "cex_" + name, 1)
+        traces += nruns
+        events += nev
+        bads = trace_monitor(d, files)
+        runs = load_runs(tr)
+        mine = [b for b in bads if b[2] == pid or (pid == "C12" and plan.get("c12_all"))]
+        if mine:
+            rp = save_replay(pid, "cex_" + name, 1, json.dumps(steps), runs.get(1, []), bads)
+            violations.append(("cex_" + name, 1, mine[0][2], mine[0][3], rp))
+        samples.append({"stage": "cex_" + name, "run": 1, "commands": [x["cmd"] for x in steps]})
+        nontrivial.add("cex_" + name)
+        log("counterexample of %s replayed into the code: %s" % (name, "code exhibits it: %s" % mine[0][3] if mine else "code does not exhibit it"))
+    # ---- generation + replay + trace validation ---------------------------------------
     for g in T.get("gen", []):
         consts = dict(BASE)
         consts.update(g["consts"])
@@ -412,6 +464,7 @@ def do_check(pid, plan, tier, seed, d, evid_path, t0):
         traces += nruns
         events += nev
         bads = trace_monitor(d, files)
+        json.dump(bads, open(os.path.join(d, "bads_%s.json" % g["name"]), "w"))
         runs = load_runs(tr)
         sched_lines = open(sp).read().splitlines()
         nt = plan.get("nontrivial")
